@@ -9,12 +9,10 @@ NA = {
  "C23": "chunk normalisation/rechunk: sums and byte limits are arithmetic over run-time values",
  "C24": "structural array ops: chunk bookkeeping arithmetic over run-time shapes",
  "C25": "lazy array metadata: per-block shapes are run-time values",
- "C26": "overlap/stencils: depth/boundary arithmetic over run-time chunks",
  "C27": "counting/set/search/histogram: numerical agreement with NumPy",
  "C31": "tensor products and decompositions: numerical linear algebra",
  "C32": "approximate percentiles: numeric merge; monotonicity is a value property",
  "C34": "creation routines: floating-point length/step arithmetic",
- "C35": "map_blocks/blockwise/gufunc: block locations are computed from run-time chunk tuples",
  "C41": "divisions truthfulness: compares index values with divisions (data-dependent)",
  "C42": "dataframe meta vs computed: needs pandas execution",
  "C44": "repartition: row order and counts are data-dependent",
